@@ -24,12 +24,14 @@ TInit == /\ TLCSet(1, {})
          /\ ridx = [h \in Hashes |-> -1]
 
 Cur == Ev[l]
-\* the finder's dictionaries after the call equal the logged ones
+\* the finder's dictionaries after the call equal the logged ones.  They are internal state:
+\* the harness sets hasf = 0 to validate the observable fields only (see props/c15.py)
 FinderMatches(e) ==
-  /\ Cardinality(DOMAIN tfb') = Len(e.tfb)
-  /\ \A i \in 1..Len(e.tfb) : e.tfb[i][1] \in DOMAIN tfb' /\ tfb'[e.tfb[i][1]] = e.tfb[i][2]
-  /\ Cardinality({t \in DOMAIN dbt' : dbt'[t] # {}}) = Len(e.dbt)
-  /\ \A i \in 1..Len(e.dbt) : e.dbt[i][1] \in DOMAIN dbt' /\ dbt'[e.dbt[i][1]] = ToSet(e.dbt[i][2])
+  e.hasf = 1 =>
+    /\ Cardinality(DOMAIN tfb') = Len(e.tfb)
+    /\ \A i \in 1..Len(e.tfb) : e.tfb[i][1] \in DOMAIN tfb' /\ tfb'[e.tfb[i][1]] = e.tfb[i][2]
+    /\ Cardinality({t \in DOMAIN dbt' : dbt'[t] # {}}) = Len(e.dbt)
+    /\ \A i \in 1..Len(e.dbt) : e.dbt[i][1] \in DOMAIN dbt' /\ dbt'[e.dbt[i][1]] = ToSet(e.dbt[i][2])
 
 TAddBegin == /\ l <= Len(Ev) /\ Cur.a = "D" /\ Cur.exc = 0
              /\ AddBegin(ToSet(Cur.arg))
